@@ -1,7 +1,7 @@
 (* C11 — Cell expressions denote the Boolean function MCNP assigns to them.
    Only restatements; proofs are in C11/Proofs.v. Spec vocabulary: C11/Spec.v. *)
 From Coq Require Import List NArith ZArith Bool String Ascii Lia.
-From T4V Require Import Base.Str C11.Model C11.Spec C11.Proofs C11.LexProofs C11.LexSound C11.Layout C11.Pipeline C11.Sound C11.Complete C11.Loop C11.Card C11.Handover.
+From T4V Require Import Base.Str C11.Model C11.Spec C11.Proofs C11.LexProofs C11.LexSound C11.Layout C11.Pipeline C11.Sound C11.Complete C11.Loop C11.Card C11.Handover C11.EndToEnd.
 Import ListNotations.
 Close Scope string_scope.
 Open Scope list_scope.
@@ -234,6 +234,54 @@ Theorem C11_card_geometry : forall name g1 mat rho g3 (e : mexpr) w r trail opts
                get_ast geom = psem e.
 Proof. exact card_geometry. Qed.
 Print Assumptions C11_card_geometry.
+
+(* ---- the whole property, from the text of the cell cards to the trees
+   handed to pot_flag (model level) ----
+   a deck = a list of cards, each written in any way the format allows
+   ([card_ok]: name / material / density tokens, any layout of an admissible
+   expression, options) with well-founded complements.  Then every card is
+   split and parsed ([build_table] = split_card + get_ast per card), the
+   complement loop terminates, and every cell ends with a tree of '*' / ':'
+   nodes over non-zero Surface leaves which, for EVERY sense assignment, holds
+   exactly where MCNP says the cell's expression holds *)
+Theorem C11_deck_end_to_end : forall (cs : list card) rk,
+  Forall card_ok cs -> table_ranked (deck_mc cs) rk ->
+  exists tbl F tbl',
+    build_table (deck_cards cs) = Ok tbl /\
+    (forall f, F <= f -> eliminate_all f tbl = Ok tbl') /\
+    forall n e, deck_mc cs n = Some e ->
+      exists c', lookup tbl' n = Some c' /\ a_plain (c_geom c') = true /\
+        a_nonzero (c_geom c') = true /\
+        forall sg cd, mcnp_meaning (deck_mc cs) sg cd -> aden cd sg (c_geom c') = mden cd sg e.
+Proof. exact deck_end_to_end. Qed.
+Print Assumptions C11_deck_end_to_end.
+
+(* non-vacuity: the deck  "1 0 -1 2 imp:n=1" / "2 3 -2.7 #1:3" *)
+Example C11_example_deck :
+  let c1 := mkCard 1 "1"%string 0 "0"%string None 1 (MAnd (MLit (-1) None) (MLit 2 None))
+              (WLit true false "1"%string None) [(1, WLit false false "2"%string None)] 1 "imp:n=1"%string in
+  let c2 := mkCard 2 "2"%string 0 "3"%string (Some (0, "-2.7"%string)) 1 (MOr (MNotCell 1) (MLit 3 None))
+              (WHashN 0 "1"%string) [(0, WColon); (0, WLit false false "3"%string None)] 0 ""%string in
+  Forall card_ok [c1; c2] /\ table_ranked (deck_mc [c1; c2]) N.to_nat /\
+  deck_cards [c1; c2] = [(1%N, "1 0 -1 2 imp:n=1"%string); (2%N, "2 3 -2.7 #1:3"%string)] /\
+  (match build_table (deck_cards [c1; c2]) with
+   | Ok tbl => option_map (map (fun p => (fst p, c_geom (snd p)))) (match eliminate_all 10 tbl with Ok t => Some t | Err _ => None end)
+   | Err _ => None end) =
+  Some [(1%N, AAnd (ASurf (-1) None) (ASurf 2 None));
+        (2%N, AOr (AOr (ASurf 1 None) (ASurf (-2) None)) (ASurf 3 None))].
+Proof.
+  cbv zeta. split; [|split; [|split]].
+  - constructor; [|constructor; [|constructor]]; unfold card_ok, mat_ok, sep_ok; cbn.
+    + repeat split; try reflexivity; try (left; discriminate).
+      right. exists "-1 2"%string, " "%char, "i"%char, "mp:n=1"%string. repeat split; reflexivity.
+    + repeat split; try reflexivity; try discriminate; try (left; discriminate). left. reflexivity.
+  - intros n e H. unfold deck_mc in H. cbn [find k_id] in H.
+    destruct (N.eqb 1 n) eqn:E1; [injection H as <-; cbn; auto|].
+    destruct (N.eqb 2 n) eqn:E2; [|discriminate]. injection H as <-. apply N.eqb_eq in E2. subst n.
+    cbn. repeat split; try (eexists; reflexivity); lia.
+  - vm_compute. reflexivity.
+  - vm_compute. reflexivity.
+Qed.
 
 (* [admissible] excludes exactly one class of well-formed MCNP expressions
    that the code rejects (genuine defect, known finding): *)
